@@ -1281,7 +1281,7 @@ func ruleVarint(r *Report) {
 }
 
 func ruleHeaders(r *Report) {
-	h := r.Rule("C05.header", "P", "writeChunk appends a block header {block, position in the buffer, previous offset} exactly when the block changes and always records the last offset; Reader.Range restarts offset and start from the header's value and bounds the section by the next header", 4)
+	h := r.Rule("C05.header", "P", "writeChunk appends a block header {block, position in the buffer, previous offset} exactly when the block changes and always records the last offset; Reader.Range restarts offset and start from the header's value and bounds the section by the next header", 5)
 	if fn := r.Anchor("(*commit.Buffer).writeChunk"); fn != nil {
 		// header append guarded by b.chunk != chunk
 		var hdrStore ssa.Instruction
@@ -1351,6 +1351,45 @@ func ruleHeaders(r *Report) {
 			}
 		}
 		h.Check(lastOK && deltaOK, "(*commit.Buffer).writeChunk/delta", r.P.Pos(fn.Pos()), "delta = idx - last; last = idx", "writeChunk does not return idx-last and record idx as the last offset on every path")
+	}
+	// sentinel: writeChunk writes the first header because a fresh buffer's block is "none"
+	// (MaxUint32); every place that creates a Buffer must establish that (or copy it)
+	for fn := range r.P.modFunc {
+		if fn.Origin() != nil {
+			continue
+		}
+		allInstrs(fn, func(ins ssa.Instruction) {
+			al, ok := ins.(*ssa.Alloc)
+			if !ok || !al.Heap {
+				return
+			}
+			if !isNamed(al.Type(), CommitPath, "Buffer") {
+				return
+			}
+			init := false
+			for _, ref := range *al.Referrers() {
+				switch x := ref.(type) {
+				case *ssa.FieldAddr:
+					if fr, _ := fieldOf(x); fr.Field == "chunk" {
+						for _, r2 := range *x.Referrers() {
+							if st, isSt := r2.(*ssa.Store); isSt && st.Addr == x {
+								if c, isC := constInt(st.Val); isC && c == 0xffffffff {
+									init = true
+								}
+								if f2, isF := loadedField(st.Val); isF && f2.Struct == "commit.Buffer" && f2.Field == "chunk" {
+									init = true
+								}
+							}
+						}
+					}
+				case *ssa.Call:
+					if calleeIs(&x.Call, "(*commit.Buffer).Reset") && x.Call.Args[0] == ssa.Value(al) {
+						init = true
+					}
+				}
+			}
+			h.Check(init, "sentinel/"+fnName(fn), r.P.InstrPos(ins), "fresh buffer starts with block = none", "a commit.Buffer is created without the \"no block yet\" sentinel in its chunk field (zero value = block 0): the first operation appended for block 0 gets no block header and is decoded relative to the previous section")
+		})
 	}
 	if fn := r.Anchor("(*commit.Reader).Range"); fn != nil {
 		st := fieldsStoredOn(fn, "commit.Reader")
